@@ -380,13 +380,126 @@ def run_case(case, root, idx):
             "ref_raised": rraised, "stray_cwd": [x[:60] for x in stray_cwd], "link_state": link_state}
 
 
+# ------------------------------------------------------------------ numbered restart series
+def run_series(case, root, idx):
+    """Trajectory.save of an N-frame trajectory as .rst7 / .ncrst (N numbered files, numbers zero-padded to the width of
+    N) into a directory that already holds some files: at padded target names, at unpadded or differently padded names
+    (NOT targets) and at the base name (not a target either).  Every file of the directory is hashed before/after."""
+    ext, N, force = case["ext"], case["frames"], case["force"]
+    d = os.path.join(root, "s%d" % idx)
+    os.makedirs(d)
+    base = os.path.join(d, "t." + ext)
+    width = len(str(N))
+    targets = {"t.%s.%0*d" % (ext, width, k): k for k in range(1, N + 1)} if N > 1 else {"t." + ext: 1}
+    scratch = os.path.join(root, "s%d_old" % idx)
+    os.makedirs(scratch)
+    for j, (suffix, kind) in enumerate(case["pre"]):
+        q = base + suffix
+        if kind == "valid":
+            tmp = os.path.join(scratch, "o%d.%s" % (j, ext))
+            make_traj([50 + j]).save(tmp)
+            os.rename(tmp, q)
+        else:
+            with open(q, "wb") as fh:
+                fh.write(b"unrelated bytes %d\n" % j * 64)
+    shutil.rmtree(scratch)
+    before = {x: sha_file(os.path.join(d, x)) for x in os.listdir(d)}
+    raised = msg = None
+    try:
+        make_traj(list(range(N))).save(base, force_overwrite=force)
+    except BaseException as e:  # noqa: BLE001
+        if isinstance(e, (KeyboardInterrupt, SystemExit)):
+            raise
+        raised, msg = type(e).__name__, str(e)[:160]
+    after = {x: sha_file(os.path.join(d, x)) for x in os.listdir(d)}
+    changed = sorted(x for x in before if after.get(x) != before[x])
+    stray = sorted(x for x in after if x not in before and x not in targets)
+    created = sorted(x for x in after if x not in before and x in targets)
+    # which targets hold exactly their frame now (all of them for short series, a sample + the pre-existing ones else)
+    check = sorted(targets) if N <= 12 else sorted({n for n, k in targets.items() if k in (1, 2, N // 2, N - 1, N)} |
+                                                   {x for x in before if x in targets})
+    bad_targets = []
+    for name in check:
+        k = targets[name]
+        q = os.path.join(d, name)
+        if not os.path.exists(q):
+            bad_targets.append([name, "missing"])
+            continue
+        try:
+            got = frame_ids(md.load_restrt(q, top=make_top(4)) if ext == "rst7" else md.load_ncrestrt(q, top=make_top(4)))
+        except Exception as e:  # noqa: BLE001
+            got = "load failed: %s" % type(e).__name__
+        if got != [k - 1]:
+            bad_targets.append([name, got])
+    shutil.rmtree(d, ignore_errors=True)
+    return {"raised": raised, "msg": msg, "changed": changed, "stray": stray, "n_created": len(created),
+            "pre_targets": sorted(x for x in before if x in targets), "pre_other": sorted(x for x in before if x not in targets),
+            "bad_targets": bad_targets, "n_targets": len(targets)}
+
+
+# ------------------------------------------------------------------ modes other than 'w'
+def run_mode(case, root, idx):
+    """md.open(path, mode, force_overwrite) + write + close, or Trajectory.save_hdf5(path, mode=..), on a path with
+    pre-existing content.  status: 0 unchanged, 1 old frames followed by the new ones, 2 created with exactly the
+    new frames, 3 anything else"""
+    ext, mode, pre, force = case["ext"], case["mode"], case["pre"], case["force"]
+    d = os.path.join(root, "m%d" % idx)
+    os.makedirs(d)
+    base = os.path.join(d, "t." + ext)
+    place_pre({"ext": ext, "pre": pre}, d, base)
+    before = snap(base)
+    old_ids = {1: [50] if ext in SINGLE_FRAME else [50, 51], 2: [50] if ext in SINGLE_FRAME else list(range(50, 62))}.get(pre)
+    head = None
+    if pre == 3:
+        with open(base, "rb") as fh:
+            head = fh.read()
+    new = make_traj([0] if ext in SINGLE_FRAME else [0, 1])
+    raised = msg = None
+    try:
+        if case["entry"] == "save_mode":
+            new.save_hdf5(base, mode=mode, force_overwrite=force)
+        else:
+            f = md.open(base, mode, force_overwrite=force)
+            try:
+                writer_call(f, ext, new)
+            finally:
+                f.close()
+    except BaseException as e:  # noqa: BLE001
+        if isinstance(e, (KeyboardInterrupt, SystemExit)):
+            raise
+        raised, msg = type(e).__name__, str(e)[:160]
+    after = snap(base)
+    detail = ""
+    if after == before:
+        status = 0
+    else:
+        status = 3
+        try:
+            got = frame_ids(load_any(base, ext))
+        except Exception as e:  # noqa: BLE001
+            got = "load failed: %s" % type(e).__name__
+        want_new = frame_ids(new)
+        if before is None and got == want_new:
+            status = 2
+        elif old_ids is not None and got == old_ids + want_new:
+            status = 1
+        detail = "loads to %s" % (got,)
+    prefix_kept = None
+    if head is not None and os.path.isfile(base):
+        with open(base, "rb") as fh:
+            prefix_kept = fh.read(len(head)) == head
+    stray = sorted(x for x in os.listdir(d) if x != os.path.basename(base))
+    shutil.rmtree(d, ignore_errors=True)
+    return {"raised": raised, "msg": msg, "status": status, "detail": detail, "prefix_kept": prefix_kept, "stray": stray}
+
+
 # ------------------------------------------------------------------ read entry points
 def dir_snapshot(d):
     out = {}
     for root, ds, fs in os.walk(d):
         for fn in fs:
             q = os.path.join(root, fn)
-            out[os.path.relpath(q, d)] = sha_file(q)
+            out[os.path.relpath(q, d)] = (sha_file(q), os.stat(q).st_mtime_ns)
         for dn in ds:
             out[os.path.relpath(os.path.join(root, dn), d) + "/"] = "dir"
     return out
@@ -402,9 +515,58 @@ def run_read(case, root, idx):
     top = make_top(4)
     before = dir_snapshot(d)
     err = None
+    refused = None
     kw = {"top": top} if ext in NEEDS_TOP else {}
+    okw = {"n_atoms": 4} if ext in ("crd", "mdcrd") else {}
     try:
-        if op == "load":
+        if op == "fmt_loader":
+            # the registered load function of the format, called directly
+            from mdtraj.formats.registry import FormatRegistry
+            FormatRegistry.loaders["." + ext](p, **kw)
+        elif op == "write_on_read_handle":
+            # an object opened for reading must refuse write() and leave the file alone
+            f = md.open(p, **okw)
+            try:
+                try:
+                    writer_call(f, ext, make_traj([7, 8]))
+                    refused = False
+                except BaseException as e:  # noqa: BLE001
+                    if isinstance(e, (KeyboardInterrupt, SystemExit)):
+                        raise
+                    refused = True
+            finally:
+                f.close()
+        elif op == "with_read_partial":
+            with md.open(p, **okw) as f:
+                f.read(1)
+            with md.open(p, "r", **okw) as f:
+                pass
+        elif op == "seek_back":
+            # read forward, then seek backwards (the text formats re-open the file to do that), relative seeks, len()
+            f = md.open(p, **okw)
+            try:
+                for step in (lambda: f.read(2), lambda: f.seek(0), lambda: f.read(1), lambda: f.seek(1, 0),
+                             lambda: f.seek(-1, 1), lambda: len(f), lambda: f.read(), lambda: f.seek(0), lambda: f.read(1)):
+                    try:
+                        step()
+                    except Exception:  # noqa: BLE001
+                        pass
+            finally:
+                f.close()
+        elif op == "load_list":
+            md.load([p, p], **kw)
+        elif op == "iterload_opts":
+            # (skip>0 with stride>1 never terminates for xtc, stride>1 with atom_indices overruns a buffer in
+            # trr.pyx: both recorded by C02, not used here)
+            for _ in md.iterload(p, chunk=2, stride=2, **kw):
+                pass
+            for _ in md.iterload(p, chunk=2, atom_indices=[0, 1], **kw):
+                pass
+            for _ in md.iterload(p, chunk=3, skip=1, **kw):
+                pass
+            for _ in md.iterload(p, chunk=0, **kw):
+                pass
+        elif op == "load":
             md.load(p, **kw)
         elif op == "load_stride":
             md.load(p, stride=2, **kw)
@@ -456,18 +618,23 @@ def run_read(case, root, idx):
             raise
         err = "%s: %s" % (type(e).__name__, str(e)[:120])
     after = dir_snapshot(d)
-    changed = sorted(k for k in before if after.get(k) != before[k])
+    changed = sorted(k for k in before if k not in after or after[k][0] != before[k][0])
+    touched = sorted(k for k in before if k in after and after[k][0] == before[k][0] and after[k] != before[k])
     new_files = sorted(k for k in after if k not in before)
     shutil.rmtree(d, ignore_errors=True)
-    return {"changed": changed, "new_files": new_files, "err": err}
+    return {"changed": changed, "touched": touched, "new_files": new_files, "err": err, "refused": refused}
 
 
 def main():
     payload = json.load(sys.stdin)
     root = os.path.join(os.getcwd(), "ow_%d" % os.getpid())
     os.makedirs(root)
-    out = {"cases": [], "reads": []}
+    out = {"cases": [], "reads": [], "modes": [], "series": []}
     try:
+        for i, c in enumerate(payload.get("series", [])):
+            out["series"].append(run_series(c, root, i))
+        for i, c in enumerate(payload.get("modes", [])):
+            out["modes"].append(run_mode(c, root, i))
         for i, c in enumerate(payload.get("cases", [])):
             out["cases"].append(run_case(c, root, i))
         for i, c in enumerate(payload.get("reads", [])):
